@@ -96,6 +96,34 @@ def coq_build(clean=False, timeout=3000):
     return rc == 0, out
 
 
+def coq_sources_hash():
+    h = hashlib.sha256()
+    for f in sorted(coq_files()):
+        with open(os.path.join(COQ, f), "rb") as fh:
+            h.update(f.encode())
+            h.update(hashlib.sha256(fh.read()).digest())
+    return h.hexdigest()
+
+
+def coqchk_all(timeout=6000):
+    """Second opinion on the compiled development: coqchk re-checks every Props module and
+    everything it depends on with the independent checker and lists the axioms (-o).  One run
+    per state of the .v sources (cached).  Returns (ok, summary text)."""
+    outf = os.path.join(BUILD, "coqchk-%s.txt" % coq_sources_hash()[:16])
+    if not os.path.exists(outf):
+        mods = " ".join("RaftV.Props.C%02d" % i for i in range(1, 21))
+        rc, out = sh("coqchk -silent -o -Q . RaftV " + mods, cwd=COQ, timeout=timeout)
+        with open(outf, "w") as f:
+            f.write(("OK\n" if rc == 0 else "FAIL\n") + out)
+    raw = open(outf).read()
+    ok = raw.startswith("OK\n")
+    summ = raw[raw.find("CONTEXT SUMMARY"):] if "CONTEXT SUMMARY" in raw else raw[-800:]
+    clean = all(("* " + k + ": <none>") in summ for k in (
+        "Axioms", "Constants/Inductives relying on type-in-type", "Constants/Inductives relying on unsafe (co)fixpoints",
+        "Inductives whose positivity is assumed"))
+    return ok and clean, " ".join(summ.split())[:600]
+
+
 def props_assumptions(pid, timeout=900):
     """Compile Props/<pid>.v on its own and capture the Print Assumptions answers.
     Cached on the mtime of the .v and of every .vo it may depend on.
